@@ -480,7 +480,9 @@ def run(rep):
     cfgs = configs(rep.tier)
     rep.configs = cfgs
     rep.bounds = dict(record_setting_combinations=len({c["flags"] for c in cfgs}), instances=len({str(c["inst"]) for c in cfgs}), runs=1)
-    rep.assumptions = ["0 <= step <= max_steps-1 (the partitions rollout() executes; the last schedule row is only ever read, never run)", "schedule adequacy: executed steps of one node carry distinct in-range sequence numbers; "
+    rep.assumptions = ["0 <= step <= max_steps-1 (the partitions run()/rollout() execute; the schedule's last row is executed only by the gym-style reset() + max_steps x step() drive, which the instance-level "
+                       "obligation covers; at step == max_steps run() files the supervisor's output under a clipped row -- DESIGN 12.3, horizon-overrun observation)",
+                       "threaded runtime: simulated clock only; the WALL_CLOCK branches of push_phase_shift/push_step (measured delays, step_state.ts adjusted by the step) are not executed by any harness", "schedule adequacy: executed steps of one node carry distinct in-range sequence numbers; "
                        "the supervisor's seq equals the partition index", "user step function deterministic (UF of its arguments)"]
     obs = pmap("props.c13", "worker_compiled", cfgs, rep.tier)
     import rex.asynchronous as A
